@@ -37,9 +37,12 @@ def variants(rnd, n_objects):
         base = objdump.objdump_text(obj).split("\n")
         out.append(("-w", base, objdump.objdump_text(obj, ["-w"]).split("\n")))
         out.append(("--no-show-raw-insn", base, objdump.objdump_text(obj, ["--no-show-raw-insn"]).split("\n")))
-        stripped = obj + ".stripped"
-        subprocess.run(["objcopy", "--strip-all", obj, stripped], check=True)
-        out.append(("objcopy --strip-all", base, objdump.objdump_text(stripped).split("\n")))
+        # symbols stripped: labels and <sym+off> annotations change (objdump then also prints direct
+        # branch targets differently, so this variant uses branch-free code)
+        nb = objdump.assemble(objdump.template_source(rnd, 25, branches=False), f"n{k}")
+        stripped = nb + ".stripped"
+        subprocess.run(["objcopy", "--strip-all", nb, stripped], check=True)
+        out.append(("objcopy --strip-all", objdump.objdump_text(nb).split("\n"), objdump.objdump_text(stripped).split("\n")))
         out.append(("--show-raw-insn -w", base, objdump.objdump_text(obj, ["--show-raw-insn", "-w"]).split("\n")))
     return out
 
